@@ -1679,7 +1679,13 @@ class SiftConfig(collections.abc.MutableMapping):
     def from_yaml_stream(cls, stream):
         """Create and return a new SiftConfig object with options loaded from a yaml stream."""
         ret = cls()
-        ret.store = yaml.load(stream, Loader=yaml.FullLoader)
+        cfg = yaml.load(stream, Loader=yaml.FullLoader)
+        if isinstance(cfg, list):
+            ret.sift_type = cfg[0]['sift_type']
+            ret.store = cfg[1]
+        else:
+            ret.store = cfg
+            ret.sift_type = 'Unknown'
         return ret
 
     def get_func(self):
